@@ -50,6 +50,9 @@ FIXED = [
     "true & true", "true ^ true", "false | false", "~true", "~false", "b | a", "b & a | B", "Z & a & M & b", "zz | Zz | zZ | ZZ", "a & ~b",
     "a & b & c ^ d", "a | b | c | d | e", "a & (b | c) & (d ^ e) | f", "(a | b) & (a | c)", "a & (a | b)", "a | (a & b)", "(a & b) | (~a & ~b)",
     "true", "false", "a", "A", "foo", "truex", "xtrue", "falsey", "tru", "( a )", "((a))", "  a  &  b  ", "a&b", "~a|b", "a^b^c", "a ^ b ^ a",
+    # names that contain (or are) the English operator words: they are ordinary names of the language, and the words are not operators
+    "knot & b", "cannot | a", "whatnot ^ knot", "band & nor", "not & a", "and | or", "xor ^ not", "~not", "nota & b", "a & andy", "oracle | a", "(knot ) & b", "knot &b",
+    "a and b", "a or b", "not a", "a xor b", "a and not b", "nota b",
 ]
 # words click may take for options (they all start with '-'), and near misses
 OPTIONISH = [
@@ -416,7 +419,7 @@ def gen_words(tier, seed):
     chars = "abAZtruefals &|^~()-" + bad_chars
     for _ in range(500 if quick else 4000):
         items.append(("random-chars", "".join(rng.choice(chars) for _ in range(rng.randint(0, 9)))))
-    pool_names = ["a", "b", "c", "d", "e", "foo", "Bar", "truex", "falsey", "tru", "xtrue", "Q", "zz", "Zed", "B"]
+    pool_names = ["a", "b", "c", "d", "e", "foo", "Bar", "truex", "falsey", "tru", "xtrue", "Q", "zz", "Zed", "B", "knot", "not", "and", "or", "xor", "cannot", "band"]
     for _ in range(250 if quick else 2500):
         names = rng.sample(pool_names, rng.randint(2, 6))
         toks = c14.random_long(rng, rng.randint(4, 16 if quick else 24), names)
